@@ -163,7 +163,8 @@ Fixpoint join (sep : bytes) (l : list bytes) : bytes :=
 
 (* bufio.Scanner with ScanLines: lines separated by \n, a trailing \r of each
    line dropped, a final unterminated non-empty line is a line, nothing after
-   the final \n.  The 64 KiB token limit is modelled in GoLib.scan_lines_lim. *)
+   the final \n.  No token limit: since repair F52 Goit's readers of the config files, the reflog
+   and .goitignore raise the scanner's limit, and commit objects are split at \n (lf_lines, F50). *)
 Definition drop_cr (l : bytes) : bytes :=
   match rev l with
   | c :: r => if beqb c c_cr then rev r else l
